@@ -271,3 +271,18 @@ def register(add):
         "Trusted: callback byte layouts (UG100) in this check; zigpy.util.Requests shim; NCP model for start-up.",
         "DESIGN.md 3/C13",
     )
+    add(
+        "C14",
+        "exploration",
+        "round-trip monitor through a stateful NCP model (write_network_info then load_network_info) plus byte-level decode of the security state the NCP received; versions 4..14 x NV3 capability x random network information",
+        "The application writes random network / node information (keys, counters, link keys, children, hashed "
+        "link key present or absent, node IEEE equal or different, trust-centre address known or unknown) to a "
+        "plain-storage NCP model (blank or holding an earlier network) and reads it back.  Compared: PAN id, "
+        "extended PAN id, channel, channel mask, update id, network key and sequence, TC link key incl. the hashed "
+        "form in stack-specific data, link-key table (key, partner), node IEEE (rewritten only with the NV3 token), "
+        "network-key frame counter (v5+), children with addresses (v9+).  The setInitialSecurityState request is "
+        "decoded at byte level: keys, sequence, preconfigured key, TC EUI64 and the four presence flags.",
+        "Trusted: the NCP model's storage semantics (the main false-alarm risk: every disagreement on the "
+        "unchanged tree was triaged by hand); generator constraints listed in the check's assumptions.",
+        "DESIGN.md 3/C14",
+    )
